@@ -119,7 +119,7 @@ fn subset_alphabet(n: &Node, cfg: &AlphaCfg, limit: usize) -> Vec<(String, Trans
         }
     }
     // at most three invalid members (a set containing one is rejected whatever else it holds), placed last
-    let invalid = ["unbal+1", "nocov", "dbl", "missing-input", "value-above-max", "wrongcov", "underpaid-zero-outs", "256-outputs"];
+    let invalid = ["unbal+1", "unbal+1+newtoken", "nocov", "dbl", "missing-input", "value-above-max", "wrongcov", "underpaid-zero-outs", "256-outputs"];
     let mut bad = vec![];
     for (i, (pre, members)) in groups.iter().enumerate() {
         if invalid.contains(&pre.as_str()) {
